@@ -62,6 +62,35 @@ def brightness_case(draw):
             "indist": 1.0, "threshold": 0, "backend": draw(st.sampled_from(["permanent", "slos"]))}
 
 
+@st.composite
+def tie_case(draw):
+    """probability_threshold exactly equal to the probability of one of the possible inputs. With brightness a
+    binary fraction and purity = indistinguishability = 1 every input probability is a dyadic rational, computed
+    without rounding by any order of multiplications and additions, so "equal" is exact on both sides; the
+    documented rule removes inputs *below* the threshold."""
+    import math as _m
+    prog = draw(gen.flat_program(min_n=2, max_n=3, max_ops=4))
+    prog, _ = gen.limit_loss(prog, 2)
+    n = prog["n"]
+    occ = draw(st.lists(st.sampled_from([0, 1, 1, 2, 3]), min_size=n, max_size=n))
+    if sum(occ) == 0:
+        occ[0] = 2
+    while sum(occ) > 3:
+        occ[max(range(n), key=lambda j: occ[j])] -= 1
+    b = draw(st.sampled_from([0.5, 0.25, 0.75]))
+    # probabilities of the possible emitted inputs (k_i of n_i photons emitted per mode)
+    probs = set()
+    import itertools as _it
+    for ks in _it.product(*[range(x + 1) for x in occ]):
+        q = 1.0
+        for k, x in zip(ks, occ):
+            q *= _m.comb(x, k) * b ** k * (1 - b) ** (x - k)
+        probs.add(q)
+    thr = draw(st.sampled_from(sorted(probs)))
+    return {"prog": prog, "input": occ, "brightness": b, "purity": 1.0, "indist": 1.0, "threshold": thr,
+            "backend": draw(st.sampled_from(["permanent", "slos"])), "exact_tie": True}
+
+
 def full_input(c, vin):
     h = c.heralds["input"]
     it = iter(vin)
@@ -88,8 +117,10 @@ def run_source(case):
         # configurations within 1e-12 of the threshold make the retained set ambiguous: skip those
         import itertools
         probs = [math.prod(cmb) for cmb in itertools.product(outcomes, repeat=nph)] if nph <= 4 else []
-        if any(abs(q - thr) < 1e-9 for q in probs):
+        if any(abs(q - thr) < 1e-9 for q in probs) and not case.get("exact_tie"):
             return {"nontrivial": False, "labels": ["threshold-borderline-skipped"]}
+        if case.get("exact_tie"):
+            labels.append("threshold-equals-an-input-probability")
     try:
         ref = source_mixture(U, n, full, b, p, ind, thr)
     except ZeroDivisionError:
@@ -213,5 +244,6 @@ def subs(tier):
     return [
         Sub("mixture", run_source, strategy=source_case(big=not q), examples=60 if q else 800),
         Sub("brightness-only-lossy", run_source, strategy=brightness_case(), examples=30 if q else 400),
+        Sub("threshold-ties", run_source, strategy=tie_case(), examples=30 if q else 600),
         Sub("closed-forms", run_closed, strategy=closed_case(), examples=40 if q else 500),
     ]
